@@ -26,7 +26,7 @@ import (
 )
 
 func init() {
-	register("C03", genParse)
+	// registered from c03.go: C03 = genParse (parser correspondence) + genC03 (ground-truth oracle)
 	replayers["parse.tokens"] = func(c *Ctx, m map[string]any) map[string]any {
 		t, _ := m["text"].(string)
 		return parseCase(unhx(t))
@@ -549,7 +549,7 @@ var neighbours = []func(r *rand.Rand, l string) string{
 
 var soup = []string{" ", "  ", "\t", "\n", "\n", "\r\n", "\r", ";", ":", ",", ".", "-", "+", "*", "!", "(", ")", "[", "]", "@", "@@", "=", "==", "|", "\"", "$", "€", "0", "1", "9", "2024-01-02", "a", "Z", "ab:cd", "account", "commodity", "include", "P", "Y", "D", "format", "note", "é", "ж", "中", "😀", "\xff", "\xc3", "\xe2\x82", "\x00", "\x80", "E", "e5", "1,000.00", "USD"}
 
-func mutateBytes(r *rand.Rand, s string) string {
+func parseMutateBytes(r *rand.Rand, s string) string {
 	b := []byte(s)
 	k := 1 + r.IntN(4)
 	for i := 0; i < k; i++ {
@@ -696,7 +696,7 @@ func genParse(c *Ctx) {
 	}
 	for i := 0; i < c.N(500, 40000); i++ {
 		lines, nl := genGLines(c, r, maxE)
-		emit("mutated", mutateBytes(r, joinLines(r, lines, nl)))
+		emit("mutated", parseMutateBytes(r, joinLines(r, lines, nl)))
 	}
 	for i := 0; i < c.N(300, 20000); i++ {
 		emit("random", randomSoup(r, r.IntN(c.N(60, 200))))
